@@ -20,7 +20,6 @@ from harness.common import frac
 from harness.props import c43_translate
 
 PID = "C43"
-DISABLED = True
 THEOREMS = [
     "PorepyVerif.C43.convert_roundtrip",
     "PorepyVerif.C43.convert_succeeds_both_ways",
@@ -35,8 +34,8 @@ THEOREMS = [
 LEAN_MODULES = ["PorepyVerif.C43.Props"]
 AUDIT = "PorepyVerif/C43/Audit.lean"
 DRIVER = "PorepyVerif/C43/Driver.lean"
-N = {"quick": 400, "thorough": 12000}
-N_SIM = {"quick": 2, "thorough": 40}
+N = {"quick": 400, "thorough": 40000}
+N_SIM = {"quick": 2, "thorough": 120}
 RULE = ("kinds: convert 68% (Units kwargs: random subset of base units with positive scalings, 65% powers of two 2^-6..2^6, else "
         "dyadic/decimal floats in [1e-3,1e3], ints, s = 1 / 1+1e-7 / rarely 2 (NotImplementedError), rarely an invalid key or a "
         "non-number; unit string of 1-5 (thorough 1-8) '*'-separated factors: base 55% / derived 33% / unknown, empty, "
@@ -45,7 +44,7 @@ RULE = ("kinds: convert 68% (Units kwargs: random subset of base units with posi
         "1-4 values dyadic or decimal, scalar / float array / int scalar / int array; both directions); attrs 7% (getattr of "
         "every base, derived, unknown name); constants 25% (one of the material data classes, 0-6 keywords with dyadic or "
         "decimal values, rarely an unknown keyword, construction in a random unit system, to_units chain of 1-3 systems ending "
-        "mostly in pp.Units()); sim: fixed number per run (quick 2, thorough 40): SinglePhaseFlow, Cartesian 2x2 or 4x4, "
+        "mostly in pp.Units()); sim: fixed number per run (quick 2, thorough 120): SinglePhaseFlow, Cartesian 2x2 or 4x4, "
         "compressible fluid, Dirichlet east/west with pressure drop, cell-wise source, 1-2 implicit Euler steps, scaled m, kg "
         "(and K, mol, rad, which must not matter). non-trivial = convert with >=2 factors that the real code accepts, constants "
         "with a chain, every sim; distinct = distinct cases")
